@@ -92,3 +92,20 @@ Theorem C09_calc_withdrawal_generated : forall b depositor idx mode wtotal amoun
   K_obwd_CalcWithdrawalAmount (obwd_state b idx) depositor idx mode wtotal amount = calc_withdrawal b depositor idx mode wtotal amount.
 Proof. exact gen_CalcWithdrawalAmount. Qed.
 Print Assumptions C09_calc_withdrawal_generated.
+
+From Sge Require Import Proofs.GenHouse.
+(* the records of an executed withdrawal: Keeper.Withdraw of x/house/keeper/withdrawal.go, generated on every run (the order-book side,
+   WithdrawOrderBookParticipation, is represented by its verdict), writes exactly what the model's withdraw_core writes - one new
+   withdrawal, numbered count + 1, for this signer / depositor / market / participation / mode and the executed amount, appended to the
+   records, and on the deposit count + 1 and total + amount (the facts C09_records is an invariant of); nothing is recorded when the
+   order-book side refuses *)
+Theorem C09_withdraw_records_generated : forall ok wds d0 d signer depositor mkt pidx mode amt,
+  K_hwd_Withdraw (hwd_state ok wds d0) (gd_of d) signer depositor mkt pidx mode amt =
+  if negb ok then None else
+  Some (hwd_state ok
+          (wds ++ ({| w_id := d_wcount d + 1; w_creator := signer; w_depositor := depositor; w_mkt := mkt; w_pidx := pidx; w_mode := mode; w_amount := amt |} :: nil))
+          {| d_creator := d_creator d; d_depositor := d_depositor d; d_mkt := d_mkt d; d_pidx := d_pidx d; d_amount := d_amount d;
+             d_wcount := d_wcount d + 1; d_wtotal := d_wtotal d + amt |},
+        d_wcount d + 1).
+Proof. exact gen_house_Withdraw. Qed.
+Print Assumptions C09_withdraw_records_generated.
